@@ -123,6 +123,7 @@ def run(R):
                  "streams share one default graph and each window plan matches the other windows' items")
     r3(R)
     r4(R)
+    r5(R)
     # conforming sibling (cited): execute_window_plans_on_external_buckets builds a fresh database per window
     sib = prog.one("rsp_engine::execute_window_plans_on_external_buckets", crate="kolibrie")
     if sib is not None:
@@ -393,3 +394,81 @@ def _through(b, op, depth=0):
     if o[0] == "call" and o[1].name() in ("deref", "as_slice", "as_ref", "borrow", "as_mut", "deref_mut") and o[1].args:
         return _through(b, o[1].args[0], depth + 1)
     return None
+
+
+def r5(R):
+    """events are routed to windows by comparing whole stream identifiers"""
+    prog = R.prog
+    R.rule("C11-R5", "stream routing is by the whole identifier: the values compared when an event is routed to a window are normal forms of "
+                     "the complete stream IRI (delimiters stripped); no function on that path takes a positional part of the IRI "
+                     "(last path segment, fragment, prefix up to a separator) - two different streams must never share a routing key")
+    PROJ = {"rfind", "find", "rsplit", "split", "rsplit_once", "split_once", "rsplitn", "splitn", "split_terminator", "rsplit_terminator",
+            "split_at", "last", "nth", "rev", "split_off", "truncate", "index", "get", "char_indices", "rmatch_indices", "match_indices",
+            "file_name", "path_segments", "fragment"}
+    n = 0
+    for nm in ("add_to_stream", "add_probabilistic_to_stream"):
+        b = R.body("C11-R5", "RSPEngine::%s" % nm, crate="kolibrie")
+        if b is None:
+            continue
+        R.saw(b)
+        # routing comparisons: eq/ne between two Strings / strs, inside the loop over window_configs
+        cmps = []
+        for x in prog.family(b.key):
+            for c in x.calls():
+                if c.name() in ("eq", "ne") and len(c.args) == 2:
+                    tys = [x.local_ty(F.op_place(a)["l"]) if F.op_place(a) else "" for a in c.args]
+                    if all("String" in t or "str" in t for t in tys):
+                        cmps.append((x, c))
+        R.ob("C11-R5", "compares:" + nm, "%s decides routing by comparing stream identifiers (found %d comparison)" % (nm, len(cmps)), len(cmps) >= 1, where=b.where())
+        # functions that produce the compared values
+        producers = set()
+        for x, c in cmps:
+            for a in c.args:
+                _producers(prog, x, a, producers)
+        producers = {k for k in producers if k in prog.bodies and prog.bodies[k].crate in ("kolibrie", "shared")}
+        R.ob("C11-R5", "normaliser:" + nm, "the compared values come from a normalising function (found %s)" % sorted(prog.bodies[k].name for k in producers),
+             len(producers) >= 1, where=b.where())
+        # close under kolibrie callees
+        scope = set()
+        work = list(producers)
+        while work:
+            k = work.pop()
+            if k in scope:
+                continue
+            scope.add(k)
+            for x in prog.family(k):
+                for c in x.calls():
+                    if c.key in prog.bodies and prog.bodies[c.key].crate in ("kolibrie", "shared") and c.key not in scope:
+                        work.append(c.key)
+        for k in sorted(scope):
+            for x in prog.family(k):
+                n += 1
+                bad = sorted({c.name() for c in x.calls() if c.name() in PROJ})
+                R.ob("C11-R5", "whole:%s:%s" % (nm, x.short), "%s (routing key of %s) uses the whole identifier (positional operations: %s)" % (x.short, nm, bad),
+                     not bad, where=x.where(),
+                     detail=None if not bad else "a key made of a part of the IRI (e.g. the text after the last `/` or `#`) is shared by different "
+                     "streams: events of one stream are inserted into the window registered on another")
+    R.floor("C11-R5", "routing-key bodies", n, 2)
+
+
+def _producers(prog, b, op, out, depth=0):
+    if depth > 10:
+        return
+    o = b.origin(op, stop_named=False)
+    if o[0] == "call":
+        c = o[1]
+        if c.key in prog.bodies:
+            out.add(c.key)
+        elif c.args and c.name() in ("deref", "as_str", "borrow", "as_ref", "clone", "to_string", "to_owned", "into"):
+            _producers(prog, b, c.args[0], out, depth + 1)
+    elif o[0] == "place":
+        for d in b.defs().get(o[1]["l"], []):
+            if d[0] == "call":
+                c = d[2]
+                if c.key in prog.bodies:
+                    out.add(c.key)
+                elif c.args and c.name() in ("deref", "as_str", "borrow", "as_ref", "clone", "to_string", "to_owned", "into"):
+                    _producers(prog, b, c.args[0], out, depth + 1)
+            elif d[0] == "assign":
+                for p2, k2 in F.rv_places(d[3]):
+                    _producers(prog, b, {"k": "copy", "pl": p2}, out, depth + 1)
